@@ -116,12 +116,18 @@ def find_anchor(s, m, anchor, bo, bc, where):
     return ms[0].start(), ms[0].end()
 
 
+BARE = set()      # functions injected with their contract only (no proof text, no external_body): the C01 panic probe
+
+
 def apply_fn_sections(s, fnsec, item_lo, item_hi, log, copies, skip=frozenset()):
     from rustscan import next_code_char as next_code_char_
     """apply all sub-sections of one fn; returns new text. Positions recomputed after each edit."""
     name = fnsec.arg.split()[0]
     # process sections in an order that keeps earlier anchors valid: we recompute spans each time
     subs = fnsec.subs
+    if name in BARE:
+        subs = [x for x in fnsec.subs if x.kind == 'spec']
+        skip = frozenset(skip) - {name, '!' + name}
     if name in skip:
         m0 = code_mask(s)
         st0, ls0, bo0, bc0 = fn_span(s, m0, name, item_lo, item_hi())
